@@ -138,7 +138,8 @@ GLOBAL_ASSUMPTIONS = [
 def report(pid, tier, seed, results, crashed, expected, meta, wall, verbose):
     from . import engine
 
-    os.makedirs(os.path.join(VERIF, "evidence"), exist_ok=True)
+    evdir = os.environ.get("VERIF_EVIDENCE_DIR") or os.path.join(VERIF, "evidence")
+    os.makedirs(evdir, exist_ok=True)
     violations, known_lines, inconclusive = [], [], []
     for r in results:
         v = r["verdict"]
@@ -202,7 +203,7 @@ def report(pid, tier, seed, results, crashed, expected, meta, wall, verbose):
         "wall_s": round(wall, 2),
         "violations": len(violations),
     }
-    with open(os.path.join(VERIF, "evidence", f"{pid}.json"), "w") as f:
+    with open(os.path.join(evdir, f"{pid}.json"), "w") as f:
         json.dump(ev, f, indent=1, default=str)
     # ---- console
     for r in results:
